@@ -209,6 +209,12 @@ func (f *Frame) staticCall(bi *BInfo, fn *ssa.Function, cl *closureVal, args []T
 		fc = g.cs.Funcs[contractKeyOf(fn.Origin())]
 	}
 	if fc != nil && !fc.Inline {
+		if fc.Opts["havoc"] == "args" {
+			// `opt havoc=args`: besides what the contract lists, the callee may change memory
+			// directly reachable from its pointer / slice arguments (also wrapped in an interface):
+			// decoders and the like, whose target type the contract cannot name
+			f.havocArgs(bi, args, argVals)
+		}
 		res := f.applyContract(bi, fn, fc, args, argVals, cl)
 		f.havocClosureArgs(bi, argVals)
 		return res
